@@ -4,6 +4,7 @@ import (
 	"bytes"
 	"encoding/binary"
 	"fmt"
+	"runtime/debug"
 	"runtime/metrics"
 	"strconv"
 	"strings"
@@ -204,6 +205,12 @@ var c03Lines = []string{"F", "F>", "F> ", "FS", "FS ", "FS !", "FS A", "FS +++++
 	";PM: N0LIB PMMSGID00001 123 N0PEER@winlink.org a pending message", ";PM: N0LIB PMMSGID00001 123 N0PEER@winlink.org", ";FW: N0PEER", ";FW: N0PEER N0AUX|12345678", ";PQ: 12345678",
 	"; N0LIB DE N0PEER (AA00aa)", "FC EM NEWMSGID0001 100 90 0", "FS +", "FS -", "FS =", "FS +-=", "FS !10", "FS A10", "FS H", "[WL2K-5.0-B2FWIHJM$]", "N0PEER>", "CMS>"}
 
+// floods of lines a session skips
+var c03Floods = []struct {
+	s string
+	n int
+}{{"\r", 500000}, {"\r\n", 300000}, {"; c\r", 200000}, {" \r", 300000}}
+
 // values for the numeric fields of a proposal line (block checksum re-sealed)
 var c03PropNums = []string{"-1", "0", "00", "1", "", "x", "0x12C", "+-1", "999999", "1000000", "2147483647", "2147483648", "1073741824", "9223372036854775807", "9223372036854775808", "100000000000000000000"}
 
@@ -362,6 +369,17 @@ func c03Cases(bases []*c03Base, thorough bool) []c03Case {
 				cs = append(cs, c03Case{bi, "msg-shape", fi, k, ""})
 			}
 		}
+		// layer 6: a flood of empty or comment lines in front of a protocol line - whatever the line reader
+		// skips it must skip in constant stack (workers run with a 8 MiB stack limit)
+		if thorough || bi%3 == 0 {
+			for ii, it := range b.Items {
+				if it.Frame == nil {
+					for k := range c03Floods {
+						cs = append(cs, c03Case{bi, "line-flood", ii, k, ""})
+					}
+				}
+			}
+		}
 		// layer 5: all short strings at the protocol positions (a subset of bases in the quick tier)
 		if thorough || bi%3 == 2 || bi == 0 {
 			for pi := range b.positions() {
@@ -518,6 +536,9 @@ func (c c03Case) materialise(bases []*c03Base, shorts []string) []byte {
 			msg = []byte(s)
 		}
 		return b.rebuild(map[int][]byte{fi: rl.EncodeB2(msg)}, map[int]int{fi: len(msg)})
+	case "line-flood":
+		p := b.Items[c.A].Off
+		return cat(raw[:p], bytes.Repeat([]byte(c03Floods[c.B].s), c03Floods[c.B].n), raw[p:])
 	case "short-ins", "short-rest":
 		p := b.positions()[c.A]
 		if c.Layer == "short-ins" {
@@ -570,6 +591,7 @@ func c03Judge(b *c03Base, in []byte) (string, string, int) {
 
 func C03(args []string) {
 	r := core.Begin("C03", "fault_enumeration", args)
+	debug.SetMaxStack(8 << 20) // no code path of the library needs a deep stack: recursion per received line or byte must not pass
 	bases := c03Bases()
 	shorts := shortStrings(3)
 	if p := replayArg(args); p != "" {
@@ -689,6 +711,7 @@ func C03(args []string) {
 	}
 	r.Finish(cov, []string{
 		"a CPU spin is reported only after the case stalled a 20 s watchdog and then three 30 s solo re-runs (cases normally take well under a millisecond)",
+		"stack guard: workers run with a 8 MiB goroutine stack limit (the line-flood layer sends up to 500 000 lines the session skips)",
 		"allocation guard: bytes allocated during the case <= 64 MiB + 4096 x bytes received; workers run under a 6 GiB address-space limit",
 	})
 }
